@@ -227,6 +227,7 @@ def run(ctx):
     ctx.check(any(isinstance(n, ast.Assign) and src(n.targets[0]) == 'self.cookie' and src(n.value) == 'cookie'
                   for n in walk_no_nested(ce.node)), 'Q3', 'CookieRequired keeps the cookie it is given', key=('Q3', 'exc-field'),
               site=ctx.site(ce, ce.node))
+    common.parse_errors_propagate(ctx, 'Q3')
     common.deleted_observed(ctx, esc, 'Q3')
     # arming
     from ..typestate import States
@@ -289,6 +290,9 @@ def run(ctx):
               site=ctx.site(ci, ci.node))
 
     # ---------------------------------------------------------------- Q4
+    # the retry below edits the stored request (COOKIE first) and serialises it again: to_bytes must not hand back an earlier result
+    from .c05 import to_bytes_is_fresh
+    to_bytes_is_fresh(ctx, 'Q4')
     ir = ctx.func('ikesa.IkeSa.process_ike_sa_init_response')
     gi = esc.add_exception_edges(ir)
     ck = None
